@@ -68,6 +68,7 @@ class Knobs:
         self.p_optional_array = p(0.3)
         self.p_optional_length_ref = p(0.15)
         self.upward_refs = False
+        self.sibling_refs = rng.random() < 0.5   # types may refer to types of directories earlier in ORDER
 
 
 class TypeInfo:
@@ -175,7 +176,12 @@ class SpecGen:
 
     # ---- visible types -------------------------------------------------------------------
     def visible(self, path, kind):
-        dirs = DIRS if self.k.upward_refs else PARENTS[path]
+        if self.k.upward_refs:
+            dirs = DIRS
+        elif self.k.sibling_refs:
+            dirs = ORDER[: ORDER.index(path) + 1]
+        else:
+            dirs = PARENTS[path]
         return [t for d in dirs for t in self.by_dir[d] if t.kind == kind]
 
     # ---- bodies --------------------------------------------------------------------------
@@ -423,7 +429,7 @@ class SpecGen:
             t = rng.choice(enums)
             etype, efixed, ebounded, edepth = t.name, t.min_size, True, 0
         elif r < 0.65 and delimited:
-            etype, efixed, ebounded, edepth = rng.choice(["string", "encoded_string"]), None, False, 0
+            etype, efixed, ebounded, edepth = rng.choice(["string", "encoded_string", "blob"]), None, False, 0
         elif r < 0.72:
             etype, efixed, ebounded, edepth = "bool", 1, True, 0
         else:
@@ -587,7 +593,7 @@ class SpecGen:
         self.gen_enum("net", "PacketFamily", [(f, i + 1) for i, f in enumerate(fams)], "byte")
         self.gen_enum("net", "PacketAction", [(a, i + 1) for i, a in enumerate(acts)], "byte")
         # types, shallow directories first so that deeper ones can refer to them
-        order = ["", "map", "pub", "net", "pub/server", "net/client", "net/server"]
+        order = ORDER
         weights = {"": 3, "map": 2, "pub": 2, "net": 3, "pub/server": 1, "net/client": 1, "net/server": 1}
         plan = []
         for _ in range(k.n_types):
@@ -611,6 +617,7 @@ class SpecGen:
         return self.current_tree()
 
 
+ORDER = ["", "map", "pub", "net", "pub/server", "net/client", "net/server"]
 WEIGHT_LIMIT = 120_000
 LOOP_MAX = {"byte": 255, "char": 253, "short": 64009}
 UNBOUNDED_ELEMENTS = 400
